@@ -31,6 +31,7 @@ def version_mix(rng, version, hist):
 
 
 CFG = {"quick": 300, "thorough": 8000, "versions": ["2.0", "2.1", "2.2"], "lengths": [20, 35, 50],
+       "persist": ["none", "none", "none", "pickle", "json"],
        "bias": {"wake": 3, "req": 2, "ctl_set": 3, "set": 1.5, "pres_child": 1.5, "idreq": 1.5},
        "malformed": 0.08, "ota": False, "post": [version_mix, gw.pending_pair_burst]}
 
